@@ -96,7 +96,8 @@ func vHeader(h *rtp.Header) Val {
 		es = append(es, L(I(int64(id)), B(v)))
 	}
 	return L(I(int64(h.Version)), Bool(h.Padding), Bool(h.Extension), Bool(h.Marker), I(int64(h.PayloadType)),
-		I(int64(h.SequenceNumber)), I(int64(h.Timestamp)), I(int64(h.SSRC)), cs, I(int64(h.ExtensionProfile)), es)
+		I(int64(h.SequenceNumber)), I(int64(h.Timestamp)), I(int64(h.SSRC)), cs, I(int64(h.ExtensionProfile)), es,
+		I(int64(len(h.Extensions))))
 }
 
 func vPacket(p *rtp.Packet) Val {
@@ -145,7 +146,7 @@ func catch(f func()) (panicked bool, what string) {
 func hdrEquivalent(a, b *rtp.Header) bool {
 	if a.Version != b.Version || a.Padding != b.Padding || a.Extension != b.Extension || a.Marker != b.Marker ||
 		a.PayloadType != b.PayloadType || a.SequenceNumber != b.SequenceNumber || a.Timestamp != b.Timestamp ||
-		a.SSRC != b.SSRC || len(a.CSRC) != len(b.CSRC) {
+		a.SSRC != b.SSRC || len(a.CSRC) != len(b.CSRC) || len(a.Extensions) != len(b.Extensions) {
 		return false
 	}
 	for i := range a.CSRC {
